@@ -31,6 +31,7 @@ type Frame struct {
 	argVals  []Val
 	mapIter  map[ssa.Value]*mapIterState
 	cellOf   map[*ssa.Alloc]int
+	firedKey map[*loopData]int // per loop with "fires" clauses: cell that records whether a callback ran in this iteration
 }
 
 type loopData struct {
@@ -330,6 +331,9 @@ func (vc *VC) loopOrdinals(fn *ssa.Function, loops map[*ssa.BasicBlock]*loopData
 				if _, ok := ins.(*ssa.DebugRef); ok {
 					continue
 				}
+				if _, ok := ins.(*ssa.Phi); ok {
+					continue // a phi carries the position of the variable's declaration
+				}
 				p := ins.Pos()
 				if !p.IsValid() {
 					continue
@@ -373,7 +377,7 @@ func (vc *VC) execFunction(fn *ssa.Function, args []Val, bindings []Val, st *Sta
 	vc.callStack = append(vc.callStack, fn)
 	defer func() { vc.callStack = vc.callStack[:len(vc.callStack)-1] }()
 
-	fr := &Frame{vc: vc, fn: fn, vals: map[ssa.Value]Val{}, old: old, edges: map[*ssa.BasicBlock][]edgeOut{}, bindings: bindings, isTop: top, argVals: args, mapIter: map[ssa.Value]*mapIterState{}, cellOf: map[*ssa.Alloc]int{}}
+	fr := &Frame{vc: vc, fn: fn, vals: map[ssa.Value]Val{}, old: old, edges: map[*ssa.BasicBlock][]edgeOut{}, bindings: bindings, isTop: top, argVals: args, mapIter: map[ssa.Value]*mapIterState{}, cellOf: map[*ssa.Alloc]int{}, firedKey: map[*loopData]int{}}
 	if len(args) != len(fn.Params) {
 		unsup("arity mismatch calling %s: %d args for %d params", fn.Name(), len(args), len(fn.Params))
 	}
@@ -820,6 +824,85 @@ func (fr *Frame) evalLoopClause(ld *loopData, cl *Clause, phiVals map[*ssa.Phi]V
 	return r.T
 }
 
+// evalPointClause evaluates a clause over the loop's variables with their values at the current
+// point of an iteration (body-local variables such as the range value included).
+func (fr *Frame) evalPointClause(ld *loopData, cl *Clause, at *ssa.BasicBlock) Term {
+	vc := fr.vc
+	cf := vc.L.SPkg.Func(cl.FuncName)
+	if cf == nil {
+		unsup("clause function %s missing", cl.FuncName)
+	}
+	name := fr.fn.RelString(vc.L.SPkg.Pkg)
+	li := vc.L.LoopVars[name][ld.ordinal-1]
+	var args []Val
+	seen := map[string]bool{}
+	for _, v := range li.Vars {
+		if seen[v.Name] || v.Name == "_" {
+			continue
+		}
+		seen[v.Name] = true
+		x, ok := fr.resolveVarAt(at, v)
+		if !ok {
+			x = Val{T: vc.freshConst("unresolved_"+v.Name, vc.sortOf(v.Type))}
+		}
+		args = append(args, x)
+	}
+	return vc.evalSpec(cf, args, fr.st, fr.old).T
+}
+
+// resolveVarAt: the SSA value bound to a source variable whose definition dominates block at.
+func (fr *Frame) resolveVarAt(at *ssa.BasicBlock, v loopVar) (Val, bool) {
+	vc := fr.vc
+	same := func(o types.Object) bool {
+		if o == nil || o.Name() != v.Name {
+			return false
+		}
+		p := vc.L.Fset.Position(o.Pos())
+		return p.Filename == v.File && p.Offset == v.Off
+	}
+	var best ssa.Value
+	bestAddr := false
+	bestDepth := -1
+	for _, b := range fr.fn.Blocks {
+		if !(b == at || b.Dominates(at)) {
+			continue
+		}
+		for _, ins := range b.Instrs {
+			d, ok := ins.(*ssa.DebugRef)
+			if !ok || !same(d.Object()) {
+				continue
+			}
+			if _, have := fr.vals[d.X]; !have {
+				switch d.X.(type) {
+				case *ssa.Const, *ssa.Parameter, *ssa.Global, *ssa.Function, *ssa.FreeVar:
+				default:
+					continue
+				}
+			}
+			if dd := domDepth(b); dd >= bestDepth {
+				best, bestAddr, bestDepth = d.X, d.IsAddr, dd
+			}
+		}
+	}
+	if best == nil {
+		for _, p := range fr.fn.Params {
+			if same(p.Object()) {
+				return fr.val(p), true
+			}
+		}
+		return Val{}, false
+	}
+	x := fr.val(best)
+	if bestAddr {
+		if x.Cell != nil {
+			return fr.cellGet(x.Cell), true
+		}
+		pt := best.Type().Underlying().(*types.Pointer).Elem()
+		return Val{T: vc.loadAt(fr.st, x.T, pt)}, true
+	}
+	return x, true
+}
+
 func (fr *Frame) enterLoop(ld *loopData, entryPhi map[*ssa.Phi]Val) {
 	vc := fr.vc
 	invs := fr.loopClauses(ld, "invariant")
@@ -865,6 +948,11 @@ func (fr *Frame) enterLoop(ld *loopData, entryPhi map[*ssa.Phi]Val) {
 	for _, cl := range invs {
 		t := fr.evalLoopClause(ld, cl, hav)
 		vc.assume(implies(fr.live, t))
+	}
+	if len(fr.loopClauses(ld, "fires")) > 0 {
+		vc.ncell++
+		fr.firedKey[ld] = vc.ncell
+		fr.st.cells[vc.ncell] = Val{T: tFalse}
 	}
 	// automatic invariant for integer range counters: 0 <= i (signed) is implied by i < n checks
 	fr.autoRangeInv(ld, hav)
@@ -959,6 +1047,15 @@ func (fr *Frame) backEdge(ld *loopData, from *ssa.BasicBlock, cond Term) {
 	for k, cl := range invs {
 		t := fr.evalLoopClause(ld, cl, phiVals)
 		vc.oblige("inv-pres", fmt.Sprintf("%s#inv-pres[%s.%s]", fr.fname(), lname, clauseLabel(cl, k)), cond, t, from.Instrs[len(from.Instrs)-1].Pos())
+	}
+	if key, ok := fr.firedKey[ld]; ok {
+		fired := fr.st.cells[key].T
+		for k, cl := range fr.loopClauses(ld, "fires") {
+			// at the end of an iteration: if the documented predicate held for this element, the
+			// callback has run in this iteration (the state is unchanged on paths without a callback)
+			p := fr.evalPointClause(ld, cl, from)
+			vc.oblige("fires<=", fmt.Sprintf("%s#fires<=[%s.%s]", fr.fname(), lname, clauseLabel(cl, k)), cond, implies(p, fired), from.Instrs[len(from.Instrs)-1].Pos())
+		}
 	}
 }
 
